@@ -35,7 +35,9 @@ var named = []string{"L", "dep.T", "otherdep.T", "LG[int]", "dep.G[int]", "dep.G
 	// a package whose last path element contains a dot (gopkg.in/yaml.v3 style), alone and as a type argument
 	"yaml.Node", "dep.G[yaml.Node]", "LG[yaml.Node]", "dep.G2[yaml.Node, dep.T]",
 	// two packages whose directory is a Go keyword (the import name has to be sanitised AND disambiguated)
-	"kwa.Options", "dep.G2[kwa.Options, kwb.Options]", "dep.G[kwb.Options]"}
+	"kwa.Options", "dep.G2[kwa.Options, kwb.Options]", "dep.G[kwb.Options]",
+	// defined types whose KIND is that of byte / rune / string (a renderer looking at kinds only loses them)
+	"dep.B8", "dep.R32", "dep.G[dep.B8]"}
 var mapKeys = []string{"string", "int", "L", "dep.T", "[2]int", "dep.K", "kwb.Options"}
 
 func atoms(full bool) []string {
@@ -96,7 +98,7 @@ func baseModule(exprs []string) pipe.Tree {
 	}
 	return pipe.Tree{
 		"go.mod":             pipe.GoMod(modPath, "1.24"),
-		"dep/dep.go":         "package dep\n\ntype T struct{ A int }\n\ntype K string\n\ntype G[X any] struct{ V X }\n\ntype G2[X any, Y any] struct {\n\tV X\n\tW Y\n}\n",
+		"dep/dep.go":         "package dep\n\ntype T struct{ A int }\n\ntype K string\n\ntype B8 uint8\n\ntype R32 int32\n\ntype G[X any] struct{ V X }\n\ntype G2[X any, Y any] struct {\n\tV X\n\tW Y\n}\n",
 		"other/dep/dep.go":   "package dep\n\ntype T struct{ B string }\n",
 		"z/dep/dep.go":       "package dep\n\ntype Z int\n",
 		"third/yaml.v3/y.go": "package yaml\n\ntype Node struct{ Kind int }\n",
